@@ -234,8 +234,14 @@ func GenAction(t *rapid.T, p *Profile, cfg *Config, ops []string) Action {
 		a.Cop = pick(t, "cop", computeOps...)
 	case "get", "refresh":
 		a.Out = pick(t, "out", loadOuts...)
+		if rapid.IntRange(0, 5).Draw(t, "ctxdone") == 0 {
+			a.Ctx = 1
+		}
 	case "bulkget", "bulkrefresh":
 		a.Out = pick(t, "bout", bulkOuts...)
+		if rapid.IntRange(0, 5).Draw(t, "ctxdone") == 0 {
+			a.Ctx = 1
+		}
 		n := rapid.IntRange(0, 6).Draw(t, "nks")
 		a.Ks = make([]int, n)
 		for i := range a.Ks {
